@@ -36,7 +36,11 @@ def canon(binding):
 
 
 def _v(v):
-    return ["HV", v.id_] if isinstance(v, HashedValue) else v
+    if isinstance(v, HashedValue):
+        return ["HV", v.id_]
+    if v is None or v == () or v == "":
+        return ["py", repr(v)]
+    return v
 
 
 class C20(Case):
@@ -45,6 +49,8 @@ class C20(Case):
     def _val(self, key, idx):
         if self.spec.get("values") == "hashed":
             return self._hv[(key, idx)]
+        if self.spec.get("values") == "falsy":
+            return [0, "", None, (), 7, 8][idx]   # bound values that are falsy (no False next to 0: they are the same dict key)
         return 10 * key + idx
 
     def run(self, mk):
@@ -140,6 +146,9 @@ def make_case(spec):
 def shapes(tier, seed):
     out = []
     import itertools
+    for keys in ([5], [3, 1]):
+        for I in (1, 2):
+            out.append(dict(keys=keys, inserts=I, values="falsy"))
     for values in ("int", "hashed"):
         for keys in ([5], [3, 1], [1, 3], [2, 2, 1]):
             nk = len(set(keys))
